@@ -300,7 +300,7 @@ def run(chk: Check):
     S = proxies.sampler_proxy()
     # C0. sampler level, including Cholesky matrices that are NOT symmetric (the two propagators must still build the
     # same one-body propagator and follow the same trajectory)
-    for sym in (True, False, "h1"):
+    for sym in (True, False, "h1", "rdm1"):
         outs = {}
         for wt in ("rhf", "uhf"):
             sysd = runlevel.make_system(np.random.default_rng(41 + chk.seed), norb=4, nelec=(2, 2), nchol=3, trial_kind=wt,
@@ -308,6 +308,10 @@ def run(chk: Check):
             if sym == "h1":     # a NON-symmetric one-body matrix, the same for both spins (h1 + coupling x a non-symmetric operator)
                 a_ = np.triu(np.random.default_rng(44 + chk.seed).normal(size=(4, 4))) * 0.3
                 sysd["ham_data"]["h1"] = sysd["ham_data"]["h1"] + jnp.array([a_, a_])
+            elif sym == "rdm1":   # a caller-supplied wave_data["rdm1"] (it sets the mean-field shift) that is NOT the trial's own density
+                d_ = np.random.default_rng(46 + chk.seed).normal(size=(4, 4)) * 0.15
+                d_ = np.asarray(sysd["wave_data"]["rdm1"][0]) + (d_ + d_.T) / 2
+                sysd["wave_data"]["rdm1"] = jnp.array([d_, d_])
             elif not sym:
                 g = np.random.default_rng(43 + chk.seed).normal(size=(3, 4, 4)) * 0.3
                 sysd["ham_data"]["chol"] = jnp.array(g.reshape(3, -1))
@@ -322,8 +326,8 @@ def run(chk: Check):
         dw = float(np.max(np.abs(outs["rhf"][1] - outs["uhf"][1])))
         dh = float(np.max(np.abs(outs["rhf"][2] - outs["uhf"][2])))
         if de > 1e-9 * max(1, abs(outs["uhf"][0])) or dw > 1e-9 or dh > 1e-12:
-            chk.violation("trajectory:sampler:restricted-vs-unrestricted" + (":nonsymmetric-h1" if sym == "h1" else "" if sym else ":nonsymmetric-chol"),
-                          f"closed-shell problem ({'non-symmetric one-body matrix' if sym == 'h1' else 'symmetric Cholesky matrices' if sym else 'non-symmetric Cholesky matrices'}): restricted and unrestricted "
+            chk.violation("trajectory:sampler:restricted-vs-unrestricted" + (":nonsymmetric-h1" if sym == "h1" else ":supplied-rdm1" if sym == "rdm1" else "" if sym is True else ":nonsymmetric-chol"),
+                          f"closed-shell problem ({'non-symmetric one-body matrix' if sym == 'h1' else 'caller-supplied rdm1' if sym == 'rdm1' else 'symmetric Cholesky matrices' if sym is True else 'non-symmetric Cholesky matrices'}): restricted and unrestricted "
                           f"sampler runs differ: energies {outs['rhf'][0]} vs {outs['uhf'][0]}, max weight difference {dw}, exp_h1 "
                           f"difference {dh}", {"symmetric_chol": sym})
     # C0b. sampler level, fields drawn INSIDE the sampler: the same seed must give the same block energy, weights and walkers
